@@ -415,9 +415,19 @@ func makeOptionalPtrDecoder(typ reflect.Type) (decoder, error) {
 	if err != nil {
 		return nil, err
 	}
+	nilKind := nilEncodingKind(etype)
 	dec := func(s *Stream, val reflect.Value) (err error) {
 		kind, size, err := s.Kind()
 		if err != nil || size == 0 && kind != Byte {
+			// Only the empty value the encoder writes for a nil pointer
+			// of this type is accepted, so that every value keeps a
+			// single encoding.
+			if err == nil && kind != nilKind {
+				if nilKind == List {
+					return wrapStreamError(ErrExpectedList, typ)
+				}
+				return wrapStreamError(ErrExpectedString, typ)
+			}
 			// rearm s.Kind. This is important because the input
 			// position must advance to the next value even though
 			// we don't read anything.
@@ -436,6 +446,26 @@ func makeOptionalPtrDecoder(typ reflect.Type) (decoder, error) {
 		return err
 	}
 	return dec, nil
+}
+
+// nilEncodingKind returns the kind of the empty value that the encoder
+// (makePtrWriter) writes for a nil pointer to etype.
+func nilEncodingKind(etype reflect.Type) Kind {
+	k := etype.Kind()
+	switch {
+	case etype == rawValueType || etype.AssignableTo(bigInt):
+		return String
+	case k == reflect.Array && isByte(etype.Elem()):
+		return String
+	case k == reflect.Struct || k == reflect.Array || k == reflect.Interface:
+		return List
+	case k == reflect.Slice && !isByte(etype.Elem()):
+		return List
+	case k == reflect.Ptr:
+		return nilEncodingKind(etype.Elem())
+	default:
+		return String
+	}
 }
 
 var ifsliceType = reflect.TypeOf([]interface{}{})
